@@ -42,7 +42,7 @@ def gen_cases(seed, tier):
                  ov=dict(newdir=bool(rng.random() < 0.7), f=int(rng.choice([0, 1, 4])) or None,
                          m=int(rng.choice([0, 1, 4])) or None, asyn=[None, True, False][int(rng.integers(0, 3))]),
                  period=int(rng.integers(2, 5)), random_seed=int(rng.integers(0, 1000)), vkw=_variant(sv, rng),
-                 errors=bool(i % 3 == 0))
+                 errors=bool(i % 3 == 0), decoy=bool(i % 4 == 1))
         if nm == "tabular":
             spec = gen.random_spec(rng, smin=3, smax=20, avg="unichain" if sv == "rvi" else None)
             c.update(kind="gen", spec=spec)
@@ -89,6 +89,16 @@ def run_case(case):
               enable_async_checkpointing=case["asyn"])
     n_cmp = 0
     try:
+        if has_cfg and case.get("decoy"):
+            # the directory was used before by a differently parameterised solver (never solved): what
+            # restore() rebuilds must be the solver that wrote the checkpoints, not the earlier one
+            from vf import shipped as _sh
+
+            dp = dict(case["params"])
+            alt = shipgen.sibling(np.random.default_rng(case["case_id"] + 99), case["name"], dp, 10 ** 9)
+            dkw = dict(kw)
+            dkw.update(epsilon=kw["epsilon"] * 7.0, checkpoint_frequency=max(1, case["f"] % 3 + 1), max_checkpoints=case["m"] + 1)
+            target.make_solver(sv, _sh.make(case["name"], alt), **dkw)
         s = target.make_solver(sv, problem, **kw)
         log = ckpt.wrap_save(s, sv, [])
         target.solve(s, case["k"])
